@@ -65,11 +65,16 @@ CLAIMS = {
   "note": "NOT decided: pruning thresholds, block-max bounds, score sums (values); that DocSets emit ascending docs (C13).",
   "technique": "who-may-call table with a per-site ordering argument (parameter provenance or dominating sort), comparator closure inspection",
  },
+ "C03": {
+  "text": "Narrow: decides two structural clauses. (1) Deleted documents are invisible on every counting/collecting path: each consumer of a raw enumerator (Weight::for_each*, count_including_deleted, TermInfo::doc_freq) sits on the arm where alive_bitset() is None or filters through the bitset; every override of Weight::count, Collector::collect_segment and SortKeyComputer::collect_segment_top_k (taken from the impl map, so new overrides are picked up) is one of the checked implementations or a pure delegation. (2) Sibling agreement: every impl Weight overriding for_each/for_each_no_score/for_each_pruning/count builds scorers through the same constructors as scorer(); BooleanWeight's single-clause short-cut must be guarded by minimum_number_should_match. The meaning of query types over corpora is not decided.",
+  "note": "NOT decided: which documents each scorer enumerates (values) — the bulk of the property.",
+  "technique": "Option-arm region analysis over MIR, closure inspection, impl-map enumeration of overrides, sibling callee-set comparison",
+ },
 }
 NA = {
  "C13": "quantifies over values returned by arbitrary advance/seek programs on stateful iterators; failures are arithmetic; the only structural statement (wrapper forwarding) is not a necessary condition, so no sound static rule is in reach",
  "C14": "aggregation results are run-time numeric values (bucket arithmetic, float sums, sketches); structural parts are already enforced by derive and the compiler",
 }
 # properties not yet claimed (checks under construction) are listed as not applicable *for now*
-for _p, _why in {'C02': 'check under construction in this session (rules designed in DESIGN.md section 4; not yet registered)', 'C03': 'check under construction in this session (rules designed in DESIGN.md section 4; not yet registered)', 'C04': 'check under construction in this session (rules designed in DESIGN.md section 4; not yet registered)', 'C12': 'check under construction in this session (rules designed in DESIGN.md section 4; not yet registered)', 'C17': 'check under construction in this session (rules designed in DESIGN.md section 4; not yet registered)', }.items():
+for _p, _why in {'C02': 'check under construction in this session (rules designed in DESIGN.md section 4; not yet registered)', 'C04': 'check under construction in this session (rules designed in DESIGN.md section 4; not yet registered)', 'C12': 'check under construction in this session (rules designed in DESIGN.md section 4; not yet registered)', 'C17': 'check under construction in this session (rules designed in DESIGN.md section 4; not yet registered)', }.items():
     NA[_p] = _why
